@@ -366,8 +366,163 @@ impl Model for QModel {
     }
 
     fn check_new_state(&self, s: &QState, trace: &dyn Fn() -> Value, acc: &mut Acc) {
-        // Index on every absent key of the universe: panics (documented), never returns a value
         let q = &s.real;
+        let want: Vec<(String, String)> = s.refm.iter().map(|(k, v)| (k.clone(), v.clone())).collect();
+        macro_rules! bad {
+            ($kind:expr, $($arg:tt)*) => { self.viol(acc, trace, $kind, format!($($arg)*)) };
+        }
+        // every iterator method an implementation might provide itself instead of inheriting it
+        // (nth, nth_back, last, count, fold, rev + skip / step_by, after a partial consumption), called
+        // on the concrete iterator types and compared with the same call on the reference list
+        {
+            let n = want.len();
+            let owned = |kv: (&purl::qualifiers::QualifierKey, &str)| (kv.0.as_str().to_owned(), kv.1.to_owned());
+            let owned_mut = |kv: (&purl::qualifiers::QualifierKey, &mut SStr)| (kv.0.as_str().to_owned(), kv.1.to_string());
+            for k in 0..=(n + 1).min(6) {
+                for pre in 0..3usize {
+                    // pre: 0 = fresh iterator, 1 = one item taken from the front first, 2 = one from the back first
+                    let mut r = want.clone().into_iter();
+                    let mut it = q.iter();
+                    let mut c = q.clone();
+                    let mut im = c.iter_mut();
+                    match pre {
+                        1 => {
+                            let _ = (r.next(), it.next(), im.next());
+                        },
+                        2 => {
+                            let _ = (r.next_back(), it.next_back(), im.next_back());
+                        },
+                        _ => {},
+                    }
+                    let mut r2 = r.clone();
+                    let mut it2 = q.iter();
+                    match pre {
+                        1 => {
+                            let _ = it2.next();
+                        },
+                        2 => {
+                            let _ = it2.next_back();
+                        },
+                        _ => {},
+                    }
+                    let w = r.nth(k);
+                    if it.nth(k).map(owned) != w {
+                        bad!("iter-nth", "iter() [pre {pre}] .nth({k}) differs from the reference {:?}", w);
+                    }
+                    if im.nth(k).map(owned_mut) != w {
+                        bad!("iter_mut-nth", "iter_mut() [pre {pre}] .nth({k}) differs from the reference {:?}", w);
+                    }
+                    // what is left afterwards
+                    if it.len() != r.len() || im.len() != r.len() {
+                        bad!("iter-nth-len", "after nth({k}) [pre {pre}]: {} / {} items left, reference {}", it.len(), im.len(), r.len());
+                    }
+                    let wb = r2.nth_back(k);
+                    if it2.nth_back(k).map(owned) != wb {
+                        bad!("iter-nth_back", "iter() [pre {pre}] .nth_back({k}) differs from the reference {:?}", wb);
+                    }
+                    let mut c2 = q.clone();
+                    let mut im2 = c2.iter_mut();
+                    match pre {
+                        1 => {
+                            let _ = im2.next();
+                        },
+                        2 => {
+                            let _ = im2.next_back();
+                        },
+                        _ => {},
+                    }
+                    if im2.nth_back(k).map(owned_mut) != wb {
+                        bad!("iter_mut-nth_back", "iter_mut() [pre {pre}] .nth_back({k}) differs from the reference {:?}", wb);
+                    }
+                    if it2.len() != r2.len() || im2.len() != r2.len() {
+                        bad!("iter-nth_back-len", "after nth_back({k}) [pre {pre}]: {} / {} items left, reference {}", it2.len(), im2.len(), r2.len());
+                    }
+                }
+                // adapters that std routes through nth / nth_back / fold
+                let w: Vec<(String, String)> = want.iter().cloned().rev().skip(k).collect();
+                if q.iter().rev().skip(k).map(owned).collect::<Vec<_>>() != w {
+                    bad!("iter-rev-skip", "iter().rev().skip({k}) differs from the reference");
+                }
+                let mut c = q.clone();
+                if c.iter_mut().rev().skip(k).map(owned_mut).collect::<Vec<_>>() != w {
+                    bad!("iter_mut-rev-skip", "iter_mut().rev().skip({k}) differs from the reference");
+                }
+                let w: Vec<(String, String)> = want.iter().cloned().skip(k).step_by(2).collect();
+                if q.iter().skip(k).step_by(2).map(owned).collect::<Vec<_>>() != w {
+                    bad!("iter-skip-step_by", "iter().skip({k}).step_by(2) differs from the reference");
+                }
+                let mut c = q.clone();
+                if c.iter_mut().skip(k).step_by(2).map(owned_mut).collect::<Vec<_>>() != w {
+                    bad!("iter_mut-skip-step_by", "iter_mut().skip({k}).step_by(2) differs from the reference");
+                }
+            }
+            let mut c = q.clone();
+            if q.iter().last().map(owned) != want.last().cloned() || c.iter_mut().last().map(owned_mut) != want.last().cloned() {
+                bad!("iter-last", "last() differs from the reference");
+            }
+            let mut c = q.clone();
+            if q.iter().count() != n || c.iter_mut().count() != n {
+                bad!("iter-count", "count() differs from the reference {n}");
+            }
+            let folded = q.iter().fold(String::new(), |mut a, (k, v)| {
+                a.push_str(k.as_str());
+                a.push_str(v);
+                a
+            });
+            let rfolded = q.iter().rfold(String::new(), |mut a, (k, v)| {
+                a.insert_str(0, v);
+                a.insert_str(0, k.as_str());
+                a
+            });
+            let wf: String = want.iter().map(|(k, v)| format!("{k}{v}")).collect();
+            if folded != wf || rfolded != wf {
+                bad!("iter-fold", "fold / rfold visit {:?} / {:?}, reference {:?}", folded, rfolded, wf);
+            }
+        }
+        // the same through the mutable iterators (on a clone): each pair exactly once, from both ends
+        // in every alternation pattern, size_hint exact, and the items are the stored pairs
+        for pattern in 0..3u8 {
+            let mut c = q.clone();
+            let n = c.len();
+            let mut seen: Vec<(String, String)> = Vec::new();
+            let mut back: Vec<(String, String)> = Vec::new();
+            {
+                let mut it = if pattern == 2 { (&mut c).into_iter() } else { c.iter_mut() };
+                let mut step = 0usize;
+                loop {
+                    let before = it.len();
+                    if it.size_hint() != (before, Some(before)) {
+                        bad!("iter_mut-size_hint", "size_hint {:?} with {} items left", it.size_hint(), before);
+                    }
+                    let from_front = match pattern {
+                        0 => step % 2 == 0,
+                        1 => step % 3 != 0,
+                        _ => step % 2 == 1,
+                    };
+                    let item = if from_front { it.next() } else { it.next_back() };
+                    let Some((k, v)) = item else { break };
+                    if from_front {
+                        seen.push((k.as_str().to_owned(), v.to_string()));
+                    } else {
+                        back.push((k.as_str().to_owned(), v.to_string()));
+                    }
+                    if it.len() + 1 != before {
+                        bad!("iter_mut-len", "mutable iterator length does not decrease by one");
+                    }
+                    step += 1;
+                    if step > n + 2 {
+                        bad!("iter_mut-endless", "mutable iterator yields more items than the collection holds");
+                        break;
+                    }
+                }
+            }
+            back.reverse();
+            seen.extend(back);
+            if seen != want {
+                bad!("iter_mut-items", "iter_mut (pattern {pattern}) yields {:?}, reference {:?}", seen, want);
+            }
+        }
+        // Index on every absent key of the universe: panics (documented), never returns a value
         for k in self.keys.iter().chain(self.invalid.iter()) {
             let present = R::valid_key(k) && s.refm.contains_key(&lower(k));
             if present {
@@ -806,157 +961,6 @@ impl Model for QModel {
             }
             if taken != want.len() {
                 bad!("iter-mixed", "mixed-end iteration yields {} items, reference {}", taken, want.len());
-            }
-        }
-        // every iterator method an implementation might provide itself instead of inheriting it
-        // (nth, nth_back, last, count, fold, rev + skip / step_by, after a partial consumption), called
-        // on the concrete iterator types and compared with the same call on the reference list
-        {
-            let n = want.len();
-            let owned = |kv: (&purl::qualifiers::QualifierKey, &str)| (kv.0.as_str().to_owned(), kv.1.to_owned());
-            let owned_mut = |kv: (&purl::qualifiers::QualifierKey, &mut SStr)| (kv.0.as_str().to_owned(), kv.1.to_string());
-            for k in 0..=(n + 1).min(6) {
-                for pre in 0..3usize {
-                    // pre: 0 = fresh iterator, 1 = one item taken from the front first, 2 = one from the back first
-                    let mut r = want.clone().into_iter();
-                    let mut it = q.iter();
-                    let mut c = q.clone();
-                    let mut im = c.iter_mut();
-                    match pre {
-                        1 => {
-                            let _ = (r.next(), it.next(), im.next());
-                        },
-                        2 => {
-                            let _ = (r.next_back(), it.next_back(), im.next_back());
-                        },
-                        _ => {},
-                    }
-                    let mut r2 = r.clone();
-                    let mut it2 = q.iter();
-                    match pre {
-                        1 => {
-                            let _ = it2.next();
-                        },
-                        2 => {
-                            let _ = it2.next_back();
-                        },
-                        _ => {},
-                    }
-                    let w = r.nth(k);
-                    if it.nth(k).map(owned) != w {
-                        bad!("iter-nth", "iter() [pre {pre}] .nth({k}) differs from the reference {:?}", w);
-                    }
-                    if im.nth(k).map(owned_mut) != w {
-                        bad!("iter_mut-nth", "iter_mut() [pre {pre}] .nth({k}) differs from the reference {:?}", w);
-                    }
-                    // what is left afterwards
-                    if it.len() != r.len() || im.len() != r.len() {
-                        bad!("iter-nth-len", "after nth({k}) [pre {pre}]: {} / {} items left, reference {}", it.len(), im.len(), r.len());
-                    }
-                    let wb = r2.nth_back(k);
-                    if it2.nth_back(k).map(owned) != wb {
-                        bad!("iter-nth_back", "iter() [pre {pre}] .nth_back({k}) differs from the reference {:?}", wb);
-                    }
-                    let mut c2 = q.clone();
-                    let mut im2 = c2.iter_mut();
-                    match pre {
-                        1 => {
-                            let _ = im2.next();
-                        },
-                        2 => {
-                            let _ = im2.next_back();
-                        },
-                        _ => {},
-                    }
-                    if im2.nth_back(k).map(owned_mut) != wb {
-                        bad!("iter_mut-nth_back", "iter_mut() [pre {pre}] .nth_back({k}) differs from the reference {:?}", wb);
-                    }
-                    if it2.len() != r2.len() || im2.len() != r2.len() {
-                        bad!("iter-nth_back-len", "after nth_back({k}) [pre {pre}]: {} / {} items left, reference {}", it2.len(), im2.len(), r2.len());
-                    }
-                }
-                // adapters that std routes through nth / nth_back / fold
-                let w: Vec<(String, String)> = want.iter().cloned().rev().skip(k).collect();
-                if q.iter().rev().skip(k).map(owned).collect::<Vec<_>>() != w {
-                    bad!("iter-rev-skip", "iter().rev().skip({k}) differs from the reference");
-                }
-                let mut c = q.clone();
-                if c.iter_mut().rev().skip(k).map(owned_mut).collect::<Vec<_>>() != w {
-                    bad!("iter_mut-rev-skip", "iter_mut().rev().skip({k}) differs from the reference");
-                }
-                let w: Vec<(String, String)> = want.iter().cloned().skip(k).step_by(2).collect();
-                if q.iter().skip(k).step_by(2).map(owned).collect::<Vec<_>>() != w {
-                    bad!("iter-skip-step_by", "iter().skip({k}).step_by(2) differs from the reference");
-                }
-                let mut c = q.clone();
-                if c.iter_mut().skip(k).step_by(2).map(owned_mut).collect::<Vec<_>>() != w {
-                    bad!("iter_mut-skip-step_by", "iter_mut().skip({k}).step_by(2) differs from the reference");
-                }
-            }
-            let mut c = q.clone();
-            if q.iter().last().map(owned) != want.last().cloned() || c.iter_mut().last().map(owned_mut) != want.last().cloned() {
-                bad!("iter-last", "last() differs from the reference");
-            }
-            let mut c = q.clone();
-            if q.iter().count() != n || c.iter_mut().count() != n {
-                bad!("iter-count", "count() differs from the reference {n}");
-            }
-            let folded = q.iter().fold(String::new(), |mut a, (k, v)| {
-                a.push_str(k.as_str());
-                a.push_str(v);
-                a
-            });
-            let rfolded = q.iter().rfold(String::new(), |mut a, (k, v)| {
-                a.insert_str(0, v);
-                a.insert_str(0, k.as_str());
-                a
-            });
-            let wf: String = want.iter().map(|(k, v)| format!("{k}{v}")).collect();
-            if folded != wf || rfolded != wf {
-                bad!("iter-fold", "fold / rfold visit {:?} / {:?}, reference {:?}", folded, rfolded, wf);
-            }
-        }
-        // the same through the mutable iterators (on a clone): each pair exactly once, from both ends
-        // in every alternation pattern, size_hint exact, and the items are the stored pairs
-        for pattern in 0..3u8 {
-            let mut c = q.clone();
-            let n = c.len();
-            let mut seen: Vec<(String, String)> = Vec::new();
-            let mut back: Vec<(String, String)> = Vec::new();
-            {
-                let mut it = if pattern == 2 { (&mut c).into_iter() } else { c.iter_mut() };
-                let mut step = 0usize;
-                loop {
-                    let before = it.len();
-                    if it.size_hint() != (before, Some(before)) {
-                        bad!("iter_mut-size_hint", "size_hint {:?} with {} items left", it.size_hint(), before);
-                    }
-                    let from_front = match pattern {
-                        0 => step % 2 == 0,
-                        1 => step % 3 != 0,
-                        _ => step % 2 == 1,
-                    };
-                    let item = if from_front { it.next() } else { it.next_back() };
-                    let Some((k, v)) = item else { break };
-                    if from_front {
-                        seen.push((k.as_str().to_owned(), v.to_string()));
-                    } else {
-                        back.push((k.as_str().to_owned(), v.to_string()));
-                    }
-                    if it.len() + 1 != before {
-                        bad!("iter_mut-len", "mutable iterator length does not decrease by one");
-                    }
-                    step += 1;
-                    if step > n + 2 {
-                        bad!("iter_mut-endless", "mutable iterator yields more items than the collection holds");
-                        break;
-                    }
-                }
-            }
-            back.reverse();
-            seen.extend(back);
-            if seen != want {
-                bad!("iter_mut-items", "iter_mut (pattern {pattern}) yields {:?}, reference {:?}", seen, want);
             }
         }
         for k in self.keys.iter().chain(self.invalid.iter()) {
